@@ -286,7 +286,7 @@ def random_case(rng, i):
     how = rng.choice(["full", "full", "noroot", "reversed", "missing", "eeonly", "extra"])
     anchor = rng.choice(["root", "root", "mid", "ee", "unrelated", "none", "root+unrelated"])
     place = rng.choice(["system", "user", "user+sysunrelated", "both"])
-    allow = rng.choice(["none", "none", "none", "pem", "hash", "other_hash", "issuer_pem", "mixed"])
+    allow = rng.choice(["none"] * 7 + ["pem", "hash", "other_hash", "issuer_pem", "mixed"])
     tc = "// extra\n" + CUSTOM_EKU + "\n" if rng.random() < 0.2 else None
     vt = rng.random() < 0.85
     ao = rng.random() < 0.25
